@@ -19,8 +19,32 @@ for d in sorted(os.listdir(os.path.join(V, 'seeded'))):
     else:
         checks = ', '.join(f"{r.get('check','?')}: {'**caught**' if r.get('detected') else 'not caught'}" for r in rows.get(d, [])) or 'not run'
     out.append(f"| {d} | {summary.replace('|','/')} | {needs.replace('|','/')} | {checks} |")
+# summary
+total = own = other_only = missed = obsolete = 0
+for d in sorted(os.listdir(os.path.join(V, 'seeded'))):
+    mp = os.path.join(V, 'seeded', d, 'meta.json')
+    if not os.path.exists(mp):
+        continue
+    m = json.load(open(mp))
+    if str(m.get('status', '')).startswith('obsolete'):
+        obsolete += 1
+        continue
+    total += 1
+    prop = d.split('-')[0]
+    rs = rows.get(d, [])
+    if any(r.get('detected') and r.get('check') == prop for r in rs):
+        own += 1
+    elif any(r.get('detected') for r in rs):
+        other_only += 1
+    else:
+        missed += 1
+summary_line = (f"{total} live seeded breaks (4 rounds; {obsolete} obsolete): {own} caught by the quick check of their own property, "
+                f"{other_only} caught only by the check of a related property (a history-dependent break written against a "
+                f"stateless statement), {missed} not caught. Column 4 lists every check that was run against the break.")
+out = [summary_line, ""] + out
 p = os.path.join(V, 'DESIGN.md')
 s = open(p).read()
-s = re.sub(r'<!-- SEED-TABLE-BEGIN -->.*<!-- SEED-TABLE-END -->', '<!-- SEED-TABLE-BEGIN -->\n' + '\n'.join(out) + '\n<!-- SEED-TABLE-END -->', s, flags=re.S)
+block = '<!-- SEED-TABLE-BEGIN -->\n' + '\n'.join(out) + '\n<!-- SEED-TABLE-END -->'
+s = re.sub(r'<!-- SEED-TABLE-BEGIN -->.*<!-- SEED-TABLE-END -->', lambda _m: block, s, flags=re.S)
 open(p, 'w').write(s)
-print(len(out) - 2, "rows")
+print(len(out) - 4, "rows;", summary_line)
